@@ -170,6 +170,67 @@ func runC19(c *fw.Ctx) {
 		c.Count("other_leaf_rejections", 1)
 		c.Distinct("nontrivial", fw.Hash64("C19", n, i))
 	}
+	// re-use of tree objects: load / compute a DIFFERENT tree into objects that already served lookups
+	lsB := make([]string, n)
+	leavesB := make([]util.Hashable, n)
+	for i := 0; i < n; i++ {
+		lsB[i] = ls[(i+1)%n] // rotated order ...
+	}
+	lsB[n/2] = refHashHex(fmt.Sprintf("other/%d/%d", c.Seed, n)) // ... and one new leaf
+	for i := range lsB {
+		leavesB[i] = leafHash(lsB[i])
+	}
+	var fresh util.MerkleTree
+	fresh.ComputeTree(leavesB)
+	rootB := fresh.GetRoot()
+	if want := refMerkleRoot(lsB); rootB != want {
+		c.Violate("", "n=%d: root of the second tree differs from the reference", n)
+		return
+	}
+	treeB := append([]string(nil), fresh.GetTree()...)
+	if err := mt.SetTree(n, treeB); err != nil { // mt has served by-index and by-leaf lookups of the first tree
+		c.Violate("", "n=%d: SetTree of another tree into a used object failed: %v", n, err)
+		return
+	}
+	mt2.ComputeTree(leavesB) // mt2 was loaded with the first tree and has served lookups
+	for _, obj := range []struct {
+		name string
+		t    *util.MerkleTree
+	}{{"SetTree into a used tree object", &mt}, {"ComputeTree on a used tree object", &mt2}} {
+		if obj.t.GetRoot() != rootB {
+			c.Violate("", "n=%d: %s: root is not the new tree's root", n, obj.name)
+			continue
+		}
+		idxs := []int{0, n / 2, n - 1, c.Rng.Intn(n), c.Rng.Intn(n)}
+		for _, i := range idxs {
+			p := obj.t.GetPath(leavesB[i])
+			if p == nil || p.LeafIndex != i || !refVerify(lsB[i], p.Nodes, i, rootB) || !obj.t.VerifyPath(leavesB[i], p) {
+				c.Violate("", "n=%d: %s: GetPath(leaf at index %d of the new tree) does not prove that leaf (path %+v)", n, obj.name, i, p)
+				break
+			}
+			pi := obj.t.GetPathByIndex(i)
+			if pi == nil || !refVerify(lsB[i], pi.Nodes, i, rootB) {
+				c.Violate("", "n=%d: %s: GetPathByIndex(%d) does not prove the new tree's leaf", n, obj.name, i)
+				break
+			}
+			c.Count("reused_object_paths", 1)
+		}
+		// a leaf of the replaced tree that is not in the new one must not be proven
+		gone := ls[(n/2+1)%n]
+		if n > 1 || gone != lsB[0] {
+			inB := false
+			for _, l := range lsB {
+				if l == gone {
+					inB = true
+				}
+			}
+			if !inB {
+				if p := obj.t.GetPath(leafHash(gone)); p != nil && len(p.Nodes) > 0 && obj.t.VerifyPath(leafHash(gone), p) {
+					c.Violate("", "n=%d: %s: a leaf of the replaced tree is still proven", n, obj.name)
+				}
+			}
+		}
+	}
 	if n == 1 || n == 2 || n == 3 || n == 1000 {
 		c.Sample(map[string]any{"n": n, "root": root, "path_of_last_leaf": mt.GetPathByIndex(n - 1)})
 	}
@@ -192,12 +253,12 @@ func init() {
 		Level: "exploration",
 		Rule: "one case per leaf count n=1..N (N=1024 quick, 4096 thorough) with distinct 64-hex leaf hashes derived from (seed,n,i); every leaf index i is exercised: " +
 			"path by index and by leaf lookup must verify against GetRoot() (library verifier and an independent one), root must equal an independent pairwise/duplicate-last reference, " +
-			"the same path must not verify for other leaves (all others for n<=64; neighbours, sibling, last leaves, 3 random and a one-nibble mutation above), export/import must reproduce root and paths. " +
+			"the same path must not verify for other leaves (all others for n<=64; neighbours, sibling, last leaves, 3 random and a one-nibble mutation above), export/import must reproduce root and paths; a different tree (rotated leaves plus one new leaf) is then loaded with SetTree / re-computed with ComputeTree into the objects that already served lookups and its by-leaf and by-index paths must prove the new leaves only. " +
 			"distinct non-trivial = distinct (n,i) pairs whose path was produced and verified",
 		Cases:      c19Sizes,
 		Run:        runC19,
 		Exhaustive: func(string) bool { return true },
-		Floors:     map[string]int64{"trees": 1000, "paths_verified": 500000, "other_leaf_rejections": 3000000, "settree_wrong_size_rejected": 1000},
+		Floors:     map[string]int64{"trees": 1000, "paths_verified": 500000, "other_leaf_rejections": 3000000, "settree_wrong_size_rejected": 1000, "reused_object_paths": 5000},
 		Assumptions: []string{
 			"leaf hashes are distinct fixed-length (64 hex) strings: the tree concatenates strings, variable-length leaves are outside the property's domain",
 			"exhaustive over n<=N and all indices, not over all leaf values",
